@@ -82,7 +82,9 @@ def pPathOp : P PathOp := do
   if t = "R" then do let r ← pList pStop; pure (.route r)
   else do modify (t :: ·); let op ← pGOp; pure (.graph op)
 
-/-- `path.hist <graph> <k> {R route | N … | A … | D …}` → per op result, then pool and data -/
+/-- `path.hist <graph> <k> {R route | N … | A … | D …}` → per op result, then pool and data;
+    routes go through `checkRouteO` / `addRouteO` (vehicle data as they are: `none none` at the end of the graph
+    = capacity / initial loading unset, `err:type` only when a leg reaches the load arithmetic) -/
 def cmdPathHist : P String := do
   let g ← pGraph
   let ops ← pList pPathOp
@@ -91,8 +93,8 @@ def cmdPathHist : P String := do
     match ops with
     | [] => (P, acc.reverse)
     | .route r :: rest =>
-      let chk := checkRoute P.g r
-      let a := P.addRoute r
+      let chk := checkRouteO P.g r
+      let a := P.addRouteO r
       let s := match a.2 with
         | .error e => showErr e
         | .ok (f, ad) => s!"ok:{showBool f}:{showBool ad}"
